@@ -178,10 +178,18 @@ func (k *alphaKind) Compare(a, b []byte) int { return bytes.Compare(a, b) }
 func (k *alphaKind) SameKey(g, w []byte) bool {
 	return bytes.Equal(g, w)
 }
-func (k *alphaKind) Show(raw []byte) string { return fmt.Sprintf("%q", raw) }
-func (k *alphaKind) HasPrefix() bool        { return true }
-func (k *alphaKind) HasRange() bool         { return true }
-func (k *alphaKind) IsBytes() bool          { return true }
+func (k *alphaKind) Show(raw []byte) string { return showBytes(raw) }
+
+// showBytes quotes a byte string, abbreviating very long ones.
+func showBytes(raw []byte) string {
+	if len(raw) <= 120 {
+		return fmt.Sprintf("%q", raw)
+	}
+	return fmt.Sprintf("%q…(%d bytes)…%q", raw[:40], len(raw), raw[len(raw)-24:])
+}
+func (k *alphaKind) HasPrefix() bool { return true }
+func (k *alphaKind) HasRange() bool  { return true }
+func (k *alphaKind) IsBytes() bool   { return true }
 
 // ---------------------------------------------------------------------------
 // numeric kinds
@@ -390,7 +398,7 @@ func (k *collKind) Compare(a, b []byte) int { return k.c.Compare(a, b) }
 func (k *collKind) SameKey(g, w []byte) bool {
 	return bytes.Equal(g, w)
 }
-func (k *collKind) Show(raw []byte) string { return fmt.Sprintf("%q", raw) }
+func (k *collKind) Show(raw []byte) string { return showBytes(raw) }
 func (k *collKind) HasPrefix() bool        { return true }
 func (k *collKind) HasRange() bool         { return false }
 func (k *collKind) IsBytes() bool          { return true }
